@@ -109,6 +109,7 @@ type TxIn struct {
 	// > 0: the gas limit is min(head gas limit, gas limit of the block under
 	// construction) - GasBelow + 1, i.e. 1 = the largest gas limit the pool admits
 	GasBelow uint64 `json:"gas_below,omitempty"`
+	Depth    uint64 `json:"depth,omitempty"` // kind "ctx": BLOCKHASH(NUMBER - depth)
 }
 
 // EvIn is one evidence reaching the builder before it seals the block.
@@ -503,7 +504,20 @@ var contractCodes = [][]byte{
 	{0x60, 0x00, 0x54, 0x15, 0x60, 0x0d, 0x57, 0x60, 0x00, 0x60, 0x00, 0x55, 0x00, 0x5b, 0x60, 0x01, 0x60, 0x00, 0x55, 0x00},
 	// logger: LOG2(mem[0..32]=callvalue, topic1=caller, topic2=number)
 	{0x34, 0x60, 0x00, 0x52, 0x43, 0x33, 0x60, 0x20, 0x60, 0x00, 0xa2, 0x00},
+	// block-context reader (called by transactions of kind "ctx", calldata = depth d):
+	// s[0]=BLOCKHASH(NUMBER-d) (also logged), s[1]=NUMBER, s[2]=COINBASE, s[3]=TIMESTAMP,
+	// s[4]=GASLIMIT, s[5]=DIFFICULTY, s[6]=BLOCKHASH(NUMBER-1), s[7]=BLOCKHASH(NUMBER-256),
+	// s[8]=BLOCKHASH(NUMBER-257) (out of range), s[9]=BLOCKHASH(NUMBER) (not an ancestor)
+	{0x60, 0x00, 0x35, 0x43, 0x03, 0x40, 0x80, 0x60, 0x00, 0x52, 0x60, 0x00, 0x55,
+		0x43, 0x60, 0x01, 0x55, 0x41, 0x60, 0x02, 0x55, 0x42, 0x60, 0x03, 0x55, 0x45, 0x60, 0x04, 0x55, 0x44, 0x60, 0x05, 0x55,
+		0x60, 0x01, 0x43, 0x03, 0x40, 0x60, 0x06, 0x55,
+		0x61, 0x01, 0x00, 0x43, 0x03, 0x40, 0x60, 0x07, 0x55,
+		0x61, 0x01, 0x01, 0x43, 0x03, 0x40, 0x60, 0x08, 0x55,
+		0x43, 0x40, 0x60, 0x09, 0x55,
+		0x60, 0x20, 0x60, 0x00, 0xa0, 0x00},
 }
+
+const ctxContract = 4
 
 // init code of a deployed contract: returns 1 byte of runtime code (STOP) and stores to slot 1
 var deployCode = []byte{0x60, 0x07, 0x60, 0x01, 0x55, 0x60, 0x00, 0x60, 0x00, 0x53, 0x60, 0x01, 0x60, 0x00, 0xf3}
@@ -760,6 +774,9 @@ func (w *World) buildTx(nonceOf func(common.Address) uint64, t *TxIn) *types.Tra
 		tx = types.NewTransaction(nonce, w.acct(t.To), bigS(t.Value), t.Gas, price, nil)
 	case "call":
 		tx = types.NewTransaction(nonce, w.contract[t.To%len(w.contract)], bigS(t.Value), t.Gas, price, nil)
+	case "ctx":
+		data := common.BigToHash(new(big.Int).SetUint64(t.Depth)).Bytes()
+		tx = types.NewTransaction(nonce, w.contract[ctxContract], new(big.Int), t.Gas, price, data)
 	case "deploy":
 		tx = types.NewContractCreation(nonce, bigS(t.Value), t.Gas, price, deployCode)
 	case "create":
@@ -1540,6 +1557,7 @@ type ForkObs struct {
 	Unprepared          string   // error of the unprepared node ("" = accepted or not run)
 	UnpreparedMode      string
 	SideBlocks          int
+	SiblingRuns         int
 	Confirmed           int // evidences confirmed in the two branches
 	StakingTxs          int
 }
@@ -1653,6 +1671,13 @@ func (w *World) forks(obs []*BlockObs) {
 	var alt []*types.Block
 	var altRecs [][]RecObs
 	for i := range f.Blocks {
+		// the process executes the main-chain block with the number of the block the
+		// second builder is about to assemble (a sibling with another ancestry)
+		if k+i < n {
+			if diff, _ := w.reexec(w.C, w.blocks[k+i], false, false); len(diff) > 0 {
+				fo.Problems = append(fo.Problems, fmt.Sprintf("re-executing main-chain block %d before its sibling is built: %s", w.blocks[k+i].NumberU64(), diff[0]))
+			}
+		}
 		blk, o := w.buildBlock(&f.Blocks[i])
 		if blk == nil {
 			fo.AltCrash = o.Crash
@@ -1666,6 +1691,20 @@ func (w *World) forks(obs []*BlockObs) {
 		fo.StakingTxs += o.NTx
 	}
 	w.A, w.be, w.worker, w.forking = savedA, savedBe, savedWorker, false
+	// siblings executed alternately by one process: the same block on the same parent
+	// state must give the same result whatever the process executed just before
+	for i := 0; i < len(alt) && k+i < n; i++ {
+		for _, st := range []struct {
+			node *Node
+			blk  *types.Block
+			what string
+		}{{w.C, w.blocks[k+i], "main-chain"}, {a2, alt[i], "second-branch"}, {w.C, w.blocks[k+i], "main-chain"}} {
+			if diff, _ := w.reexec(st.node, st.blk, false, false); len(diff) > 0 {
+				fo.Problems = append(fo.Problems, fmt.Sprintf("executing %s block %d right after its sibling: %s", st.what, st.blk.NumberU64(), diff[0]))
+			}
+			fo.SiblingRuns++
+		}
+	}
 	mainB := w.blocks[k:n]
 	var mainRecs [][]RecObs
 	for i := k; i < n; i++ {
